@@ -10,7 +10,7 @@ LEVEL = 'exploration'
 EXHAUSTIVE = {'quick': True, 'thorough': True}
 RULE = ('exhaustive table sweep: every (version, segment, field index) row, every (version, complex datatype, '
         'component j[, sub-component k]) row, instantiation of every declared segment/field/datatype, and open-ended '
-        '(Z-/varies-terminated) segments for indices 1..60 plus seeded indices up to 1500; each position is populated by '
+        '(Z-/varies-terminated) segments for indices 1..60 plus seeded indices up to 1500, and pairs of indices assigned in ascending and descending order; each position is populated by '
         'name with a literal valid for its leaf datatype, the encoding is compared with a reference text built from '
         'separator counts only, and that text is parsed back. Non-trivial = a position with at least one separator to '
         'count (i>1 or j>1 or k>1) or an instantiation; distinct by (version, element, i, j, k, value) - distinct by '
@@ -193,6 +193,36 @@ def check_open(v, s, i, val):
     return out
 
 
+def check_open_pair(v, s, i, j, order):
+    """two indices of an open-ended segment, assigned in the given order: each value at its own index"""
+    Segment, Field, Component, SubComponent, P = _imports()
+    lo, hi = min(i, j), max(i, j)
+    exp = s + '|' * lo + 'Lo' + '|' * (hi - lo) + 'Hi'
+    sig = 'open-ended-pair:%s:%s' % ('Z' if s.startswith('Z') else v, 'zseg' if s.startswith('Z') else s)
+    try:
+        seg = Segment(s, version=v, validation_level=TOL)
+        for k in ((hi, lo) if order == 'descending' else (lo, hi)):
+            setattr(seg, '%s_%d' % (s, k), 'Hi' if k == hi else 'Lo')
+        got = seg.to_er7()
+    except Exception as e:
+        return [('open-ended-unusable:%s:%s' % (v, s), '%s: %s' % ((i, j, order), _exc(e)))]
+    if got != exp:
+        return [(sig, 'indices %d and %d set in %s order: encoded %r, expected %r' % (lo, hi, order, got[:80], exp[:80]))]
+    # and starting from a parsed text
+    try:
+        p = P.parse_segment(exp, version=v, validation_level=TOL)
+        setattr(p, '%s_%d' % (s, lo + 1 if hi > lo + 1 else hi + 1), 'Mid')
+        names = sorted(T.idx_of(c.name) for c in p.children)
+        vals = dict((T.idx_of(c.name), c.to_er7()) for c in p.children)
+        back = P.parse_segment(p.to_er7(), version=v, validation_level=TOL)
+        vals2 = dict((T.idx_of(c.name), c.to_er7()) for c in back.children)
+        if vals != vals2 or len(names) != 3:
+            return [(sig, 'parsed %r, then a third index set: %r re-parses as %r' % (exp[:60], vals, vals2))]
+    except Exception as e:
+        return [('open-ended-unusable:%s:%s' % (v, s), 'pair after parse: %s' % _exc(e))]
+    return []
+
+
 def check_instantiate(v, kind, name):
     Segment, Field, Component, SubComponent, P = _imports()
     from hl7apy.factories import datatype_factory
@@ -242,6 +272,8 @@ def replay(case, acc):
                                 case['sname'], case['k'], case['val'])
     if k == 'open':
         return check_open(case['v'], case['s'], case['i'], case['val'])
+    if k == 'open2':
+        return check_open_pair(case['v'], case['s'], case['i'], case['j'], case['order'])
     if k == 'inst':
         return check_instantiate(case['v'], case['what'], case['name'])
     raise ValueError(k)
@@ -342,6 +374,9 @@ def _run_shard(shard, acc):
             idxs = list(range(last + 1, last + 61)) + sorted(rnd.sample(range(last + 61, 1501), hi))
             for i in idxs:
                 _do(acc, {'kind': 'open', 'v': v, 's': s, 'i': i, 'val': 'X1'}, True)
+            for n in range(hi):
+                i, j = rnd.sample(range(last + 1, last + 40), 2)
+                _do(acc, {'kind': 'open2', 'v': v, 's': s, 'i': i, 'j': j, 'order': 'descending' if n % 2 else 'ascending'}, True)
 
 
 def plan(tier, seed):
